@@ -393,6 +393,11 @@ func c08Oracle(kind string, want []string, wantOK bool, vcanon string, viols []c
 		if !wantOK {
 			return "ok unresolvable-fault-path" // only possible for hand-written / shrunk cases
 		}
+		if vcanon == "decerr" && strictErr && strings.Contains(strict, "cannot unmarshal number") {
+			// the violating number does not even fit the generated Go type (a front-end narrowed the
+			// type from the bound, e.g. CUE `int64 & >=0` → uint64): rejected by both decoders
+			return "ok rejected-by-decoder"
+		}
 		if !strictOK {
 			return "FAIL strict-rejected-faultless"
 		}
